@@ -84,7 +84,7 @@ def abstract_uf(terms):
         seen.add(t.get_id())
         for c in t.children():
             collect(c, seen)
-        if z3.is_app(t) and t.decl().kind() == z3.Z3_OP_UNINTERPRETED and t.num_args() > 0:
+        if z3.is_app(t) and t.decl().kind() == z3.Z3_OP_UNINTERPRETED and t.num_args() > 0 and z3.is_real(t):
             key = t.sexpr()
             if key not in table:
                 table[key] = z3.Real(f'uf!{len(table)}!{t.decl().name()}')
